@@ -786,6 +786,30 @@ func (s *Sched) ParkedIn() []string {
 	return out
 }
 
+// LockState describes the keyed-lock queues (triage).
+func (s *Sched) LockState() string {
+	s.mu.Lock()
+	defer s.mu.Unlock()
+	out := ""
+	for k, q := range s.lockQ {
+		out += fmt.Sprintf("[%p:", k)
+		for _, t := range q {
+			fn := ""
+			if t.site > 0 && t.site < len(s.Sites) {
+				fn = s.Sites[t.site].Fn
+			}
+			out += fmt.Sprintf(" %s(state %d in %s)", t.Name, t.state, fn)
+		}
+		out += "]"
+	}
+	for _, t := range s.tasks {
+		if t.state == stLockWait {
+			out += " waiter:" + t.Name
+		}
+	}
+	return out
+}
+
 // LockWaiters lists the functions in which other tasks are waiting for a mutex (coverage probes).
 func (s *Sched) LockWaiters() []string {
 	s.mu.Lock()
